@@ -71,7 +71,7 @@ def run_tlc(module, cfg, workers=16, simulate=None, depth=None, seed=None, timeo
         if coverage:
             cmd += ["-coverage", "1"]
         if simulate is not None:
-            cmd += ["-simulate", "num=%d" % simulate]
+            cmd += ["-simulate", "num=%d" % max(1, -(-simulate // workers))]      # (TLC counts num per worker)
             if depth:
                 cmd += ["-depth", str(depth)]
         if seed is not None:
